@@ -63,6 +63,7 @@ PROPS = {
     ),
     'C20': dict(
         family='discovery', fields=['r', 'doc', 'es', 'times'], timeout=1500,
+        extra_runs=[dict(family='discovery-real', diff=False, tier='thorough')],
         facts=['initializeMetadataLoops', 'metadataRetryIntervalSec', 'discoveryMaxRetries', 'discoveryBaseDelaySec', 'discoveryMaxDelaySec', 'initWaitSec'],
         trusted=['real-time liveness is represented by the virtual clock (testing/synctest); the metadata cache\'s 5-minute clean-up goroutine is stopped through the overlay hook (it only drops an already expired document) '
                  'because a goroutine waiting for the mutex GetMetadata holds during a whole round is not durably blocked under synctest',
